@@ -1495,13 +1495,15 @@ impl FixtureDatabase {
             .map(|a| a.def.range.start().to_usize())
             .collect();
         for star in args.vararg.iter().chain(args.kwarg.iter()) {
-            // the node starts at the name: step back over the `*` / `**`
+            // the node starts at the name: step back over the blanks that may
+            // separate it from its `*` / `**` (spaces, tabs, a line break), then
+            // over the star(s) themselves
             let mut o = star.range.start().to_usize();
-            while o > 0 && (bytes[o - 1] == b'*' || bytes[o - 1] == b' ') {
+            while o > 0 && bytes[o - 1].is_ascii_whitespace() {
                 o -= 1;
             }
-            while o < bytes.len() && bytes[o] == b' ' {
-                o += 1;
+            while o > 0 && bytes[o - 1] == b'*' {
+                o -= 1;
             }
             starts.push(o);
         }
